@@ -190,7 +190,19 @@ class Node:
             i = int(op[lb + 1:rb])
             while self.shape[1] == 0 and i >= len(self.children):
                 self.children.append(Node(self.shape[2]))          # a dynamic list grows up to the written index
-            self.children[i].apply(op[rb + 1:], t)
+            cop = op[rb + 1:]
+            hist = self.__dict__.setdefault("_cycle_ops", {}).setdefault(t, {}).setdefault(i, [])
+            if cop == "i" and self.children[i].kind == "ts":
+                # an ELEMENT invalidated on its own: it holds no value and no modification time any more (it reads not modified
+                # even in this cycle); the list is told and ticks
+                self.children[i]._wipe()
+                hist.append("i")
+            else:
+                if hist[-2:] == ["w", "i"]:
+                    # ticked, invalidated and written AGAIN in one cycle: the element notifies the list a second time (F32)
+                    self.__dict__.setdefault("renotified", set()).add(t)
+                self.children[i].apply(cop, t)
+                hist.append("w")
             self.touch(t)
             return True
         if k == "tsb":
@@ -228,6 +240,9 @@ class Node:
             return self.lmt != NEVER and not getattr(self, "inval", False)
         if k == "tsw":
             return self.ever
+        if k == "tsl" and self.shape[1] == 0 and self.children and not any(c.valid() for c in self.children):
+            # a dynamic list that has elements stays valid once it has been written, also when every element lost its value
+            return self.lmt != NEVER and not getattr(self, "inval", False)
         return any(c.valid() for c in self.children)
 
     def all_valid(self):
